@@ -120,6 +120,9 @@ def judge(chk, sc, o):
 def run(chk):
     rng = chk.rng
     scs = ka_scenarios(rng, 300 if chk.tier == 'quick' else 5000)
+    for _sc in scs:
+        if rng.random() < .25 and 'rules' not in _sc:
+            _sc['rules'] = gen.schedule_rules(rng, _sc['pool']['n_jobs'])      # adversarial schedules
     obs = run_scenarios(chk, 'keep-alive call sequences under DetSim', scs, {'C10', 'C01', 'C02', 'C03'},
                         nontrivial=lambda sc, o: sum(1 for op in sc['ops'] if op['op'] in oracles.MAPS) >= 2,
                         dist=lambda sc, o: {'keep_alive': bool(sc['pool'].get('keep_alive')), 'same_func': sc['same_func'], 'start': sc['pool']['start_method'],
